@@ -20,6 +20,7 @@ import (
 	"os"
 	"os/exec"
 	"path/filepath"
+	"regexp"
 	"sort"
 	"strings"
 	"time"
@@ -210,6 +211,7 @@ type stepObs struct {
 	edits       []edit
 }
 
+var assetRef = regexp.MustCompile(`"(\./[A-Za-z0-9_./-]+\.txt)"`)
 var devNull *os.File
 var failedWrites map[string]bool // per scenario: output paths whose write failed in an earlier step
 
@@ -668,6 +670,24 @@ func oracle(sc *scenario, root string, i int, ob *stepObs, st *Stats, write, all
 			st.Fail("reported-output-not-on-disk", in(), map[string]interface{}{"path": pp, "on_disk": string(got), "exists": ok}, string(c))
 		}
 	}
+	// every file-loader asset a reported script refers to was written
+	if write {
+		for _, f := range ob.outs {
+			if !strings.HasSuffix(f.Path, "js") {
+				continue
+			}
+			for _, m := range assetRef.FindAllStringSubmatch(string(f.Contents), -1) {
+				target := strings.TrimPrefix(physPath(filepath.Join(filepath.Dir(f.Path), m[1])), root)
+				if _, ok := after.files[target]; !ok {
+					if sc.kind == "finding-K" {
+						failKnown("asset-reference-dangling", tagged("case-variant-duplicate-asset-dropped"), map[string]interface{}{"script": strings.TrimPrefix(f.Path, root), "refers_to": m[1]}, "the asset exists")
+					} else {
+						st.Fail("asset-reference-dangling", in(), map[string]interface{}{"script": strings.TrimPrefix(f.Path, root), "refers_to": m[1]}, "the asset exists")
+					}
+				}
+			}
+		}
+	}
 	for _, p := range append(append([]string{}, created...), modified...) {
 		if _, ok := reported[p]; !ok {
 			st.Fail("unreported-write", in(), diff, "every created or modified file is a reported output")
@@ -1099,6 +1119,14 @@ func fixedScenarios() []*scenario {
 	}
 	j2.steps = []stepSpec{{label: "build-with-mkdir-error"}}
 	out = append(out, j2)
+	// K: two file-loader assets whose hash-less names differ only in case, identical contents
+	k := &scenario{kind: "finding-K", files: map[string]string{"/src/a.js": "import u from './x/A.txt'\nimport v from './y/a.txt'\nconsole.log(u, v)\n", "/src/x/A.txt": "same", "/src/y/a.txt": "same"},
+		desc: "entry src/a.js imports x/A.txt and y/a.txt (file loader, identical contents) asset-names=[name] outdir=out bundle"}
+	k.opts = func(string) api.BuildOptions {
+		return api.BuildOptions{EntryPoints: []string{"src/a.js"}, Outdir: "out", Bundle: true, Format: api.FormatESModule, AssetNames: "[name]", Loader: map[string]api.Loader{".txt": api.LoaderFile}, Write: true}
+	}
+	k.steps = []stepSpec{{label: "build"}}
+	out = append(out, k)
 	// G: symbolic links
 	g := &scenario{kind: "finding-G", files: map[string]string{"/src/a.js": "export let a = 1 // ORIGINAL\n"},
 		symlinks: [][2]string{{"/out", "src"}}, dirLinks: [][2]string{{"/out", "/src"}}, desc: "entry src/a.js outdir=out where out -> src (symlink)"}
@@ -1295,10 +1323,12 @@ func fmtOut(fs []graph.OutputFile) []string {
 	return out
 }
 
-// validateBuildOptions through the public API: is an output on an input refused?
+// validateBuildOptions through the public API in every mode: is an output on
+// an input refused?  Modes: 0 api.Build, 1 Context+Rebuild, 2 Context+Serve+Rebuild,
+// 3 Context+Watch+Rebuild, 4 the CLI entry point (which always writes).
 func allowCases(st *Stats) []string {
 	var items []string
-	for _, useCtx := range []bool{false, true} {
+	for mode := 0; mode <= 4; mode++ {
 		for _, write := range []bool{false, true} {
 			for _, allow := range []bool{false, true} {
 				tmp, err := os.MkdirTemp("", "verif-c17-")
@@ -1310,27 +1340,60 @@ func allowCases(st *Stats) []string {
 				os.WriteFile(root+"/src/a.js", []byte("console.log(1)\n"), 0o644)
 				o := api.BuildOptions{AbsWorkingDir: root, EntryPoints: []string{"src/a.js"}, Outdir: "src", Write: write, AllowOverwrite: allow, LogLevel: api.LogLevelSilent}
 				var res api.BuildResult
-				if useCtx {
+				refused := false
+				skipped := false
+				switch mode {
+				case 0:
+					res = api.Build(o)
+				case 4:
+					args := []string{"src/a.js", "--outdir=src", "--log-level=silent"}
+					if allow {
+						args = append(args, "--allow-overwrite")
+					}
+					wd, _ := os.Getwd()
+					os.Chdir(root)
+					code := cli.Run(args)
+					os.Chdir(wd)
+					refused = code != 0
+				default:
 					ctx, cerr := api.Context(o)
 					if cerr != nil {
 						panic(cerr.Error())
 					}
-					res = ctx.Rebuild()
+					if mode == 2 {
+						if _, err := ctx.Serve(api.ServeOptions{Host: "127.0.0.1"}); err != nil {
+							skipped = true // no free port: the case is not evaluated
+						}
+					}
+					if mode == 3 {
+						if err := ctx.Watch(api.WatchOptions{}); err != nil {
+							skipped = true
+						}
+					}
+					if !skipped {
+						res = ctx.Rebuild()
+					}
 					ctx.Dispose()
-				} else {
-					res = api.Build(o)
 				}
-				refused := false
 				for _, e := range res.Errors {
 					refused = refused || strings.Contains(e.Text, "Refusing to overwrite input file")
 				}
 				b, _ := os.ReadFile(root + "/src/a.js")
-				if !allow && string(b) != "console.log(1)\n" {
-					st.Fail("input-overwritten", map[string]interface{}{"scenario": "none", "options": fmt.Sprintf("entry src/a.js outdir=src write=%v allowOverwrite=%v ctx=%v", write, allow, useCtx)}, string(b), "src/a.js unchanged")
+				changed := string(b) != "console.log(1)\n"
+				desc := map[string]interface{}{"scenario": "none", "options": fmt.Sprintf("entry src/a.js outdir=src write=%v allowOverwrite=%v mode=%d", write, allow, mode)}
+				if !allow && changed {
+					st.Fail("input-overwritten", desc, string(b), "src/a.js unchanged")
+				}
+				if mode != 4 && !write && changed {
+					st.Fail("failed-or-nonwriting-build-wrote-files", desc, string(b), "src/a.js unchanged")
 				}
 				os.RemoveAll(tmp)
-				st.Note("allow-matrix", fmt.Sprint(useCtx, write, allow), true)
-				items = append(items, fmt.Sprintf("(%s,%s,%s)", CBool(write), CBool(allow), CBool(refused)))
+				if skipped {
+					st.Note("allow-matrix-skipped", fmt.Sprint(mode, write, allow), false)
+					continue
+				}
+				st.Note(fmt.Sprintf("allow-matrix:mode%d", mode), fmt.Sprint(mode, write, allow), true)
+				items = append(items, fmt.Sprintf("(%d,%s,%s,%s)", mode, CBool(write), CBool(allow), CBool(refused)))
 			}
 		}
 	}
@@ -1492,14 +1555,14 @@ func runC17(seed uint64, n int, tier string, outDir string) []*Stats {
 	r := NewRng(seed)
 	st := NewStats("c17", seed)
 	enc := newEncoder()
-	cf := NewCoqFile("From V Require Import Common.Base C17.WriteSM C17.Spec C17.PathModel C17.Harness.")
+	cf := NewCoqFile("From V Require Import Common.Base C17.WriteSM C17.Spec C17.PathModel C17.Modes C17.Harness.")
 
 	var comp []string
 	for i := 0; i < n; i++ {
 		comp = append(comp, compileCase(r, st, enc))
 	}
 	cf.AddCases("compile_cases", "compile_case", "check_compile", comp)
-	cf.AddCases("allow_cases", "bool * bool * bool", "check_allow", allowCases(st))
+	cf.AddCases("allow_cases", "Z * bool * bool * bool", "check_allow", allowCases(st))
 	pathCases(r, n, st, cf)
 
 	var hist []string
